@@ -154,6 +154,10 @@ def frontier : CPc → Nat → Nat
   | .send i, _ => i
   | _, n => n
 
+/-- the driver's reaction to a spurious `park` return in an event log: the caller re-checks the count;
+    `Props/C07Spurious.spuriousFn_sound`: this is the step `StepS.spurious` -/
+def spuriousFn (s : Sys) : Option Sys := if s.c = .park then some { s with c := .check } else none
+
 /-- Invariant. `act` = a broadcast is in progress. -/
 structure Inv (s : Sys) : Prop where
   nm    : s.c ≠ .idle → s.n ≤ s.m
